@@ -16,7 +16,7 @@ Open Scope Z_scope.
 Inductive case :=
 | CSess (cid mid hlen : nat) (ending peer : nat) (settle : bool)
         (fed returned : bool) (leak reg : nat) (gconn greq : Z) (panicked : bool)
-| CWs (st_ms ping_ms : Z) (cancelled : bool) (panicked : bool).
+| CWs (st_ms ping_ms : Z) (cancelled closed : bool) (panicked : bool).
 
 Fixpoint wf_compb (c : comp) : bool :=
   match c with
@@ -67,9 +67,11 @@ Definition run_case (c : case) : bool * bool :=
       let covered := match comp_of cid mid with Some c => wf_compb c | None => false end in
       (* the model predicts "terminates and releases" for every covered case *)
       (covered && Bool.eqb ok true, ok)
-  | CWs st ping cancelled panicked =>
+  | CWs st ping cancelled closed panicked =>
       let predicted := g_write_deadline_guard ping st in
-      (Bool.eqb predicted cancelled && negb panicked,
-       (* dropped once a write has been blocked for the send timeout, whatever the other options *)
-       (if st >? 0 then cancelled else true) && negb panicked)
+      (* the model of Relay.ServeHTTP (relay_conn) is guarded: once the peer is gone it finishes *)
+      (Bool.eqb predicted cancelled && closed && negb panicked,
+       (* dropped once a write has been blocked for the send timeout, whatever the other options;
+          and nothing of the connection remains once the peer is gone *)
+       (if st >? 0 then cancelled else true) && closed && negb panicked)
   end.
